@@ -27,27 +27,27 @@
     `reassembly_inv`: the invariant `SysInv` (receiver buffers are
     `concat (segments 0..j)`, `lastSequenceNumber = j`; senders hold the
     payload and the fixed geometry; only genuine frames are in flight) holds
-    in every reachable state; `payload_exact_partial`: whenever B indicates
-    the request to its application it carries exactly `P`, whenever A
-    confirms a ComplexAck to its application it carries exactly `R`;
-    `truncation_impossible_partial`: any other outcome A's application sees
-    is not a ComplexAck (abort / error / reject).
+    in every reachable state; `payload_exact`: whenever B indicates the
+    request to its application it carries exactly `P`, whenever A confirms a
+    ComplexAck to its application it carries exactly `R`;
+    `truncation_impossible`: any other outcome A's application sees is not a
+    ComplexAck (abort / error / reject).
 
-  Partial / not proved:
-  * the `_partial` theorems carry ONE hypothesis beyond the property's own
-    "≤ 256 segments": `guardA` — while A's transaction is still SENDING its
-    segmented request (state SEGMENTED_REQUEST) the medium does not deliver a
-    response segment with a non-zero sequence number to it.
-    `ClientSSM.segmented_request` opens the response buffer from any segmented
-    ComplexAck without testing `apduSeq == 0` (the twin of the defect repaired
-    by fixes/C05-server-first-segment-seq0 on the server side).  Inside ONE
-    transaction no such frame can exist (B emits segment ≥ 1 only after a
-    segment ack of A, which A emits only in SEGMENTED_CONFIRMATION, a state it
-    never leaves for SEGMENTED_REQUEST) — that coupling argument is not
-    formalised; see notes/C05.md.
+  The only hypothesis beyond the geometry bookkeeping (`Params.Geo`) is the
+  property's own "at most 256 segments per direction" (`Geo.leP`, `Geo.leR`)
+  and "device information does not change during the exchange" (`StableB`,
+  no `learn` move).  Both receivers open a buffer only from a segment with
+  sequence number 0 (fixes/C05-server-first-segment-seq0,
+  fixes/C05-client-first-ack-segment-seq0): without these two repairs the
+  theorem is false (see notes/C05.md) — the medium may re-deliver frames after
+  a transaction is over, and A's application may submit again at any time.
+
+  Not proved:
   * beyond 256 segments the theorem needs FIFO channels (loss + duplication
     without overtaking by ≥ 256 segments); not proved — decided on the
     implementation by the lockstep `long` stream and the end-to-end long runs.
+    Full statement: `payload_exact` with `Geo.leP`/`Geo.leR` dropped and the
+    medium `net` replaced by two queues (deliver / duplicate / drop the head).
   * `single_fault_progress` (leads-to) is NOT proved; the clause "any one
     fault is repaired" is decided on the implementation by the exhaustive
     single-fault sweep of harness/c05_impl.py.
@@ -204,12 +204,6 @@ theorem mem_framesTo {peer : Peer} {f : Apdu} : ∀ {outs : List Out}, f ∈ fra
     | confirmAnon c e => exact List.mem_cons_of_mem _ (ih h)
     | raised r => exact List.mem_cons_of_mem _ (ih h)
 
-/-- `guardA`: see the file header (the one hypothesis of the `_partial` theorems) -/
-def guardA (p : Params) (a : Sap) (f : Apdu) : Bool :=
-  match findTxn p.kA a.clients with
-  | some t => !(t.body.st = .segReq && f.ty = 3 && f.seg && f.seq ≠ 0)
-  | none => true
-
 /-- what the environment may do -/
 inductive Move
   /-- A's application submits the request (payload `P`); `chosen` = its invoke ID, if it picks one -/
@@ -248,8 +242,7 @@ def Sys.move (p : Params) (cfgA cfgB : Cfg) (s : Sys) : Move → Sys × List Out
     | _ => (s, [], [])
   | .deliverA i =>
     match s.net[i]? with
-    | some (false, f) =>
-      if guardA p s.a f then s.sentA p (step cfgA s.a (.frame p.peerB f)) else (s, [], [])
+    | some (false, f) => s.sentA p (step cfgA s.a (.frame p.peerB f))
     | _ => (s, [], [])
   | .drop i => ({ s with net := s.net.eraseIdx i }, [], [])
   | .timeoutA => s.sentA p (step cfgA s.a (.timeout false p.peerB p.id))
@@ -288,15 +281,6 @@ def StableB (p : Params) (devB : List (Peer × DeviceInfo)) : Prop :=
 
 section
 variable {p : Params} {cfgA cfgB : Cfg} {devA devB : List (Peer × DeviceInfo)}
-
-theorem guardA_spec {a : Sap} {f : Apdu} (h : guardA p a f = true) {t : Txn}
-    (ht : findTxn p.kA a.clients = some t) (hst : t.body.st = .segReq) (h3 : f.ty = 3)
-    (hseg : f.seg = true) : f.seq = 0 := by
-  unfold guardA at h
-  rw [ht] at h
-  simp only [hst, h3, hseg, decide_true, Bool.true_and, Bool.not_eq_true', decide_eq_false_iff_not,
-    ne_eq, Decidable.not_not] at h
-  exact h
 
 theorem sentA_inv {s : Sys} (hi : SysInv p cfgA cfgB devA devB s) {r : Sap × List Out}
     (hg : (specA p cfgA devA).Good r) :
@@ -373,16 +357,9 @@ theorem move_ok (g : p.Geo cfgA cfgB devA devB) (hstab : StableB p devB) {s : Sy
     · rename_i f hf
       have hm : (false, f) ∈ s.net := List.mem_of_getElem? hf
       have hn : f.ty ≠ 0 ∧ Genuine p.TR f := by simpa [NetOk] using hi.net _ _ hm
-      split
-      · rename_i hgd
-        refine moveOk_A hi (Local.step_good _ sa hi.a _ ⟨?_, fun _ _ => trivial, ?_⟩)
-        · intro t ht hk
-          refine ⟨fun _ => hn.2, ?_⟩
-          obtain ⟨_, hkey⟩ := findTxn_some ht
-          rw [← hkey, hk] at ht
-          exact guardA_spec hgd ht
-        · intro h0; exact absurd h0 hn.1
-      · exact moveOk_id hi
+      refine moveOk_A hi (Local.step_good _ sa hi.a _ ⟨?_, fun _ _ => trivial, ?_⟩)
+      · intro t ht hk _; exact hn.2
+      · intro h0; exact absurd h0 hn.1
     · exact moveOk_id hi
   | drop i =>
     refine ⟨⟨hi.a, hi.b, ?_⟩, (by intro o h; cases h), (by intro o h; cases h)⟩
@@ -448,17 +425,15 @@ theorem init_inv : SysInv p cfgA cfgB devA devB (Sys.init devA devB) :=
    ⟨rfl, (by intro t h; cases h), (by intro t h; cases h)⟩,
    (by intro d f h; cases h)⟩
 
-/-- **payload_exact (partial: `guardA`, see the file header).**  While each
+/-- **payload_exact.**  While each
     direction has at most 256 segments (`Geo.leP`, `Geo.leR`), under ARBITRARY
     drop / duplication / reordering / delay of genuine frames, timer expiries
     at any time:
     * whenever B indicates the request of the exchange to its application, it
       carries octet for octet the payload `P` A's application submitted;
     * whenever A confirms a ComplexAck of the exchange to its application, it
-      carries octet for octet the payload `R` B's application submitted.
-
-    Full statement (not proved): the same with `deliverA` unguarded. -/
-theorem payload_exact_partial (g : p.Geo cfgA cfgB devA devB) (hstab : StableB p devB) (ms : List Move) :
+      carries octet for octet the payload `R` B's application submitted. -/
+theorem payload_exact (g : p.Geo cfgA cfgB devA devB) (hstab : StableB p devB) (ms : List Move) :
     let r := Sys.run p cfgA cfgB (Sys.init devA devB) ms
     (∀ x, Out.indicate p.peerA x ∈ r.2.2 → x.ty = 0 → x.invokeId = p.id → x.data = p.P) ∧
     (∀ x, Out.confirm p.peerB x ∈ r.2.1 → x.ty = 3 → x.invokeId = p.id → x.data = p.R) := by
@@ -470,18 +445,18 @@ theorem payload_exact_partial (g : p.Geo cfgA cfgB devA devB) (hstab : StableB p
   · intro x hx h3 hid
     exact (h.outA _ hx).2.2 p.peerB x rfl rfl h3 hid
 
-/-- **truncation_impossible (partial: `guardA`).**  Whatever A's application
+/-- **truncation_impossible.**  Whatever A's application
     is told about the exchange that is NOT the exact response payload is not a
     ComplexAck at all: it is an abort (or an error / reject PDU) — never a
     truncated, duplicated or re-ordered payload; and B's application is never
     indicated a request of the exchange with any other content than `P`. -/
-theorem truncation_impossible_partial (g : p.Geo cfgA cfgB devA devB) (hstab : StableB p devB)
+theorem truncation_impossible (g : p.Geo cfgA cfgB devA devB) (hstab : StableB p devB)
     (ms : List Move) :
     let r := Sys.run p cfgA cfgB (Sys.init devA devB) ms
     (∀ x, Out.confirm p.peerB x ∈ r.2.1 → x.invokeId = p.id → x.data ≠ p.R → x.ty ≠ 3) ∧
     (∀ x, Out.indicate p.peerA x ∈ r.2.2 → x.invokeId = p.id → x.data ≠ p.P → x.ty ≠ 0) := by
   intro r
-  obtain ⟨h1, h2⟩ := payload_exact_partial g hstab ms
+  obtain ⟨h1, h2⟩ := payload_exact g hstab ms
   exact ⟨fun x hx hid hne h3 => hne (h2 x hx h3 hid), fun x hx hid hne h0 => hne (h1 x hx h0 hid)⟩
 
 /-- **wire lemmas lifted to every step (client).**  In every reachable state,
@@ -596,17 +571,12 @@ example :
     r.1.a.clients = [] := by
   decide +kernel
 
-/-- the instance of `payload_exact_partial` for the concrete exchange, any move sequence -/
+/-- the instance of `payload_exact` for the concrete exchange, any move sequence -/
 example (ms : List Move) :
     let r := Sys.run exParams exCfg exCfg (Sys.init [] []) ms
     (∀ x, Out.indicate 0 x ∈ r.2.2 → x.ty = 0 → x.invokeId = 1 → x.data = exParams.P) ∧
     (∀ x, Out.confirm 1 x ∈ r.2.1 → x.ty = 3 → x.invokeId = 1 → x.data = exParams.R) :=
-  payload_exact_partial exGeo exStable ms
-
-/-- `guardA` does not block the frames of an ordinary exchange: in the trace
-    above every `deliverA` went through (the guard is `true` whenever A is not
-    in SEGMENTED_REQUEST or the frame is a first segment / not a segment) -/
-example : guardA exParams (Sys.init [] []).a { ty := 3, seg := true, seq := 2 } = true := by decide
+  payload_exact exGeo exStable ms
 
 /-- in-order acceptance, concrete: SEGMENTED_CONFIRMATION holding segment 0,
     (a) segment 2 arrives early → negative ack naming 0, buffer unchanged;
